@@ -45,14 +45,14 @@ func verifRootDir() string {
 func buildCollectorDriver() string {
 	root := verifRootDir()
 	overlay := filepath.Join(root, ".build", "overlay", "overlay.json")
-	ov, err := os.ReadFile(overlay)
-	if err != nil || !strings.Contains(string(ov), "verif_driver_overlay.go") {
-		fmt.Fprintln(os.Stderr, "C20: overlay file missing or without the cmd/collector driver:", overlay)
-		os.Exit(3)
-	}
 	repo := os.Getenv("VERIF_REPO")
 	if repo == "" {
 		repo = "/repo"
+	}
+	ov, err := os.ReadFile(overlay)
+	if err != nil || !strings.Contains(string(ov), filepath.Join(repo, "cmd", "collector", "verif_driver_overlay.go")) {
+		fmt.Fprintln(os.Stderr, "C20: overlay file missing or without the cmd/collector driver for", repo, ":", overlay)
+		os.Exit(3)
 	}
 	bin := filepath.Join(root, ".build", "bin", "collector-driver")
 	tmp := fmt.Sprintf("%s.%d", bin, os.Getpid())
@@ -79,7 +79,23 @@ func startC20Driver() *c20Driver {
 	if err := cmd.Start(); err != nil {
 		panic(err)
 	}
-	return &c20Driver{cmd, in, bufio.NewReaderSize(out, 1<<20)}
+	d := &c20Driver{cmd, in, bufio.NewReaderSize(out, 1<<20)}
+	// handshake: without the overlay's init() the binary would be the real collector
+	ready := make(chan string, 1)
+	go func() { s, _ := d.out.ReadString('\n'); ready <- s }()
+	select {
+	case s := <-ready:
+		if strings.TrimSpace(s) != "C20-DRIVER-READY" {
+			cmd.Process.Kill()
+			fmt.Fprintln(os.Stderr, "C20: collector driver did not announce itself:", s)
+			os.Exit(3)
+		}
+	case <-time.After(20 * time.Second):
+		cmd.Process.Kill()
+		fmt.Fprintln(os.Stderr, "C20: collector driver did not start (overlay not applied?)")
+		os.Exit(3)
+	}
+	return d
 }
 
 func (d *c20Driver) run(caseLine string) string {
@@ -182,7 +198,17 @@ func c20Field(r *Rng, class *string) string {
 			}
 		}
 		dt, kv, f = entities.Ipv6Address, "ip "+BytesArg(b), fmt.Sprintf("%v", net.IP(b))
-	case 16, 17:
+	case 16:
+		var b []byte
+		if r.Intn(4) > 0 {
+			b = r.Bytes(r.Intn(6))
+		}
+		kv = "oct nil"
+		if b != nil {
+			kv = "oct " + BytesArg(b)
+		}
+		dt, f = entities.OctetArray, fmt.Sprintf("%v", b)
+	case 17:
 		s := c20Strings[r.Intn(len(c20Strings))]
 		dt, kv, f = entities.String, "str "+BytesArg([]byte(s)), fmt.Sprintf("%v", s)
 	case 18: // the same getter serves two element kinds
@@ -192,8 +218,8 @@ func c20Field(r *Rng, class *string) string {
 		dt, kv, f = entities.DateTimeMilliseconds, fmt.Sprintf("u64 %d", u), fmt.Sprintf("%v", u)
 		*class = "data/shared-getter"
 	case 20: // types whose value is not printed (a fixed notice instead)
-		dt = []entities.IEDataType{entities.OctetArray, entities.DateTimeMicroseconds, entities.DateTimeNanoseconds,
-			entities.BasicList, entities.SubTemplateList, entities.SubTemplateMultiList, entities.InvalidDataType}[r.Intn(7)]
+		dt = []entities.IEDataType{entities.DateTimeMicroseconds, entities.DateTimeNanoseconds,
+			entities.BasicList, entities.SubTemplateList, entities.SubTemplateMultiList, entities.InvalidDataType}[r.Intn(6)]
 		if dt == entities.DateTimeMicroseconds || dt == entities.DateTimeNanoseconds {
 			kv = fmt.Sprintf("u64 %d", u)
 		} else {
